@@ -54,7 +54,8 @@ def r02_1(ctx):
                 fi, outs = run_il_exec(idx, "ArithmeticOp", lambda: {
                     "arith_type": mem[op],
                     "ops": [mk_pure("a", mk_vt("ta", sa, W)), mk_pure("b", mk_vt("tb", sa, W))]})
-                ctx.check(f"ArithmeticOp.il_exec[{op},{'s' if sa else 'u'}]{WS}", one_text(outs) == exp, exp, one_text(outs), fn_where(idx, fi))
+                e = exp[sa] if isinstance(exp, dict) else exp
+                ctx.check(f"ArithmeticOp.il_exec[{op},{'s' if sa else 'u'}]{WS}", one_text(outs) == e, e, one_text(outs), fn_where(idx, fi))
         # --- BitOp
         mem = members_by_value(idx, "BitOperationType")
         for op, exp in O.BITOPS.items():
